@@ -20,6 +20,10 @@ class Pt:
     def __init__(self, x, y):
         self.x, self.y = x, y
 
+    @property
+    def my_y(self):
+        return self.y
+
     def __eq__(self, o):
         return isinstance(o, Pt) and self.x == o.x and self.y == o.y
 
@@ -90,7 +94,7 @@ def py(p):
             items.append("**" + p[2])
         return "{" + ", ".join(items) + "}"
     if t == "cls":
-        items = [py(q) for q in p[2]] + ["%s=%s" % (k, py(q)) for k, q in p[3]]
+        items = [py(q) for q in p[2]] + ["%s=%s" % (k.replace("-", "_"), py(q)) for k, q in p[3]]
         return "%s(%s)" % (p[1], ", ".join(items))
     if t == "or":
         return "(" + " | ".join(py(q) for q in p[1]) + ")"
@@ -152,6 +156,7 @@ def depth1():
         out.append(("cls", "Pt", [s1, ("cap", "b")], []))
         out.append(("cls", "Pt", [], [("y", s1)]))
         out.append(("cls", "Pt", [s1], [("y", ("cap", "b"))]))
+        out.append(("cls", "Pt", [], [("my-y", s1)]))   # keyword attribute names are mangled like any other name
         out.append(("as", s1, "w") if s1[0] != "cap" else ("as", ("wild",), "w"))
     out.append(("seq", []))
     out.append(("map", [], None))
@@ -256,12 +261,21 @@ def _mkdict(ks, v0, v1):
 
 
 GUARDS = [None, ("expr", "(E 50 t)", "E(50, t)"), ("stmt", "(do (E 49 0) (E 50 t))", "[E(49, 0), E(50, t)][1]")]
+# guards that are literals (a falsy literal guard must reject the case, not vanish)
+LITERAL_GUARDS = [("expr", "0", "0"), ("expr", '""', '""'), ("expr", "[]", "[]"), ("expr", "False", "False"), ("expr", "None", "None"), ("expr", "1", "1"), ("expr", "{}", "{}"),
+                  ("expr", "#()", "()"), ("expr", "0.0", "0.0")]
+# contexts around the match form (the match result is the value of a setv / sits under a let that binds `_` / inside a comprehension)
+CONTEXTS = ["setv-guard", "let-wild", "setv-capture", "in-lfor"]
 
 
-def program(p, guard, second=True):
+def program(p, guard, second=True, ctx=None):
     caps = captures(p)
-    res_hy = "#(0 " + " ".join(caps) + ")"
-    res_py = "(0, " + "".join(c + ", " for c in caps) + ")"
+    if ctx == "setv-guard":
+        # the statement guard reads the variable that the match result is about to be assigned to: it must see the old value
+        guard = ("stmt", "(do (E 49 0) (and (= r 7) (E 50 t)))", "[E(49, 0), (r == 7 and E(50, t))][1]")
+    # (setv-capture: the case body must not mention the captured name, else the compiler keeps a separate temporary)
+    res_hy = "#(0 " + " ".join(caps if ctx != "setv-capture" else []) + ")"
+    res_py = "(0, " + "".join(c + ", " for c in (caps if ctx != "setv-capture" else [])) + ")"
     hy_cases = [hy(p) + ((" :if " + guard[1]) if guard else "") + " " + res_hy]
     py_cases = ["    case %s%s:\n        RESULT = %s" % (py(p), (" if " + guard[2]) if guard else "", res_py)]
     if second:
@@ -271,6 +285,19 @@ def program(p, guard, second=True):
         py_cases.append("    case _ as anything:\n        RESULT = (2, E(52, 0))")
     hytext = "(match (E 40 SUBJ)\n  " + "\n  ".join(hy_cases) + ")"
     pytext = "RESULT = None\nmatch E(40, SUBJ):\n" + "\n".join(py_cases) + "\n"
+    if ctx == "setv-guard":
+        hytext = "(do (setv r (E 38 7)) (setv r " + hytext + ") r)"
+        pytext = "r = E(38, 7)\n" + pytext + "r = RESULT\n"
+    elif ctx == "let-wild":
+        hytext = "(let [_ (E 38 7)] #(" + hytext + " _))"
+        pytext = "u_ = E(38, 7)\n" + pytext + "RESULT = (RESULT, u_)\ndel u_\n"
+    elif ctx == "setv-capture":
+        c = caps[0]
+        hytext = "(do (setv %s %s) %s)" % (c, hytext, c)
+        pytext = pytext + "%s = RESULT\n" % c
+    elif ctx == "in-lfor":
+        hytext = "(lfor i9 [0] " + hytext + ")"
+        pytext = "RESULT0 = []\nfor i9 in [0]:\n" + "".join("    " + l + "\n" for l in pytext.splitlines()) + "    RESULT0.append(RESULT)\nRESULT = RESULT0\n"
     return hytext, pytext
 
 
@@ -278,7 +305,7 @@ def irrefutable(p):
     return p[0] in ("cap", "wild") or (p[0] == "as" and irrefutable(p[1])) or (p[0] == "or" and any(irrefutable(q) for q in p[1]))
 
 
-def match_agree(prog, pycode, subj, t, t2, why=None):
+def match_agree(prog, pycode, subj, t, t2, why=None, cmp_bind=True):
     from vf import skel
     from vf.envobj import mkE, same
 
@@ -324,6 +351,8 @@ def match_agree(prog, pycode, subj, t, t2, why=None):
         if why is not None:
             why.append("effects hy %r vs python %r" % (l1, l2))
         return False
+    if not cmp_bind:
+        return True
     # names bound by the match (also by cases whose guard failed, as in Python)
     for name in g2:
         if name in ("E", "Pt", "K", "t", "t2", "SUBJ", "RESULT", "__builtins__"):
@@ -364,6 +393,32 @@ def spec(tier, seed):
                 L += ["    post: _", '    """', "    return match_agree(P_%s, X_%s, %s, t, t2)" % (fn, fn, subj_expr)]
                 obs.append(Ob(fn, "\n".join(L), sample="subject %s: %s   ==   %s" % (st, hytext.replace("\n", " "), pytext.replace("\n", " ; ")),
                               group="depth%d/%s" % (depth, p[0])))
+    # literal guards and contexts, over the depth-1 patterns and the first subject type that can reach each
+    extra_cases = []
+    for p in depth1():
+        st = subject_types_for(p)[0]
+        for k, g in enumerate(LITERAL_GUARDS):
+            if tier == "quick" and (len(extra_cases) + k) % 3:
+                continue
+            extra_cases.append((p, g, None, st))
+        for ctx in CONTEXTS:
+            if ctx == "setv-capture" and not captures(p):
+                continue
+            if ctx == "let-wild" and "_" not in hy(p).split():
+                continue
+            extra_cases.append((p, GUARDS[1] if ctx != "setv-guard" else None, ctx, st))
+    for p, guard, ctx, st in extra_cases:
+        params, subj_expr, pre = SUBJECT_TYPES[st]
+        hytext, pytext = program(p, guard, second=(ctx != "setv-capture"), ctx=ctx)
+        fn = "h%d" % n
+        n += 1
+        L = ["P_%s = _sk.compile_prog(%r)" % (fn, hytext), "X_%s = compile(%r, '<pymatch>', 'exec')" % (fn, pytext),
+             "from checks.C08 import _mkdict",
+             "def %s(%s, t: bool, t2: bool) -> bool:" % (fn, params), '    """']
+        L += ["    pre: " + q for q in pre]
+        L += ["    post: _", '    """', "    return match_agree(P_%s, X_%s, %s, t, t2, None, %r)" % (fn, fn, subj_expr, ctx != "in-lfor")]
+        obs.append(Ob(fn, "\n".join(L), sample="%s subject %s: %s   ==   %s" % (ctx or "literal-guard", st, hytext.replace("\n", " "), pytext.replace("\n", " ; ")),
+                      group="context/%s" % (ctx or "literal-guard")))
     tw = "\n".join(["P_twin0 = _sk.compile_prog('(match (E 40 SUBJ) [a 1] #(0 a) _ 2)')",
                     "X_twin0 = compile('RESULT = None\\nmatch E(40, SUBJ):\\n    case [a, 1]:\\n        RESULT = (0, a)\\n    case _:\\n        RESULT = 2\\n', '<py>', 'exec')",
                     "def twin0(s: List[int]) -> bool:", '    """', "    pre: len(s) <= 2", "    post: _", '    """',
@@ -379,7 +434,8 @@ def spec(tier, seed):
         "grade": "S",
         "functions_encoded": ["hy.core.result_macros.compile_match_expression, compile_pattern (all ten pattern kinds), guard lifting for statement guards"],
         "bounds": "%d patterns of depth 1 and %s depth-2 patterns (sequence/tuple with #*, mapping with #**, class positional+keyword, | alternatives, :as) over literals, captures, "
-                  "wildcard, dotted values; guards {none, expression, statement-producing}; three cases per match (the pattern, a guarded two-element sequence, a wildcard :as); "
+                  "wildcard, dotted values; guards {none, expression, statement-producing, literal constants incl. falsy ones}; contexts {plain, result assigned to a variable the statement guard reads, "
+                  "result assigned to a captured name, under a let that binds _, inside lfor}; three cases per match (the pattern, a guarded two-element sequence, a wildcard :as); "
                   "subjects symbolic and typed from the pattern: int, None/bool, str pool, List[int] (len<=3), 2-tuples, nested lists/tuples, dicts over keys {k,j,z}, Pt(x,y) with "
                   "symbolic (possibly list-valued) fields" % (len(depth1()), "every 3rd of the" if tier == "quick" else "all"),
         "outside": "pattern depth 3 (property text) beyond the wrappers listed; star patterns in the middle of deeper nestings; user classes other than Pt; float/bytes literals",
